@@ -2,6 +2,7 @@
 import json
 import os
 import subprocess
+import sys
 import numpy as np
 from harness import core
 
@@ -66,8 +67,21 @@ class NoTruth:
         raise RuntimeError('the return value of an observer was truth-tested')
 
 
+def elk(el):
+    """position of a source element"""
+    if isinstance(el, Unprintable):
+        return el.k
+    if isinstance(el, np.ndarray):
+        return int(el[0])
+    return el[1]
+
+
 def show(calls):
-    return [(j, ('unprintable', el.k) if isinstance(el, Unprintable) else el) for j, el in calls]
+    return [(j, ('unprintable', el.k) if isinstance(el, Unprintable) else (('array', elk(el)) if isinstance(el, np.ndarray) else el)) for j, el in calls]
+
+
+def same_calls(a, b):
+    return [(j, id(el)) for j, el in a] == [(j, id(el)) for j, el in b]
 
 
 class Unprintable:
@@ -91,6 +105,14 @@ class Src:
         self.n, self.i, self.fail = n, 0, fail
         self.rewind = rewind           # a tutorial-style iterator whose __iter__ starts over: `for x in it` calls it exactly once
         self.items = [(('el', k) if k % 4 != 2 else Unprintable(k)) for k in range(n)]      # some elements cannot be printed
+        for k in range(n):
+            # … and some are arrays the producer has made read-only (a memory-mapped frame, np.frombuffer of a message): still read-only afterwards
+            if k % 7 == 3:
+                self.items[k] = np.frombuffer(np.array([float(k), 0.5]).tobytes(), dtype=float)
+            elif k % 7 == 5:
+                a = np.array([float(k), 1.5])
+                a.setflags(write=False)
+                self.items[k] = a
 
     def __iter__(self):
         if self.rewind:
@@ -162,6 +184,8 @@ def observe_cases(ctx):
             # the interval may come as any integer-like number (a numpy scalar from a config array, a bool, a float like 2.0)
             iv_raw = rng.choice([np.int8(3), np.uint8(5), np.int16(2), np.int64(3), 2.0, True]) if (long_stream or rng.random() < 0.15) \
                 else rng.choice([1, 1, 2, 3, 7])
+            if not long_stream and rng.random() < 0.08:
+                iv_raw = rng.choice([sys.maxsize, 10 ** 18, 2 ** 63, 2 ** 70 + 1])       # "only the first element": any interval >= 1 is an interval
             iv = int(iv_raw)
             stream = S.observe(src, *funcs, interval=iv_raw)
             if src.i != 0 or log:
@@ -211,7 +235,7 @@ def observe_cases(ctx):
         if any(d > y + (1 if False else 0) and y < n and d != y for d, y in hist[:min(k, n)]):
             ctx.fail('observe-draws-ahead:' + case['helper'], 'draw counter / hand-overs %s' % hist[:8], case)
             continue
-        if log != want_calls:
+        if not same_calls(log, want_calls):
             ctx.fail('observer-calls-wrong:' + case['helper'], 'observer calls %s, expected %s' % (show(log[:8]), show(want_calls[:8])), case)
             continue
         want_status = 'open'
@@ -222,7 +246,11 @@ def observe_cases(ctx):
         if status != want_status:
             ctx.fail('observe-end-state:' + case['helper'], 'stream ended as %s, expected %s' % (status, want_status), case)
             continue
-        metas.append((case, len(got), src.i, [(j, el.k if isinstance(el, Unprintable) else el[1]) for j, el in log], len(lines) - 1, k + (1 if close else 0)))
+        thawed = [k for k, el in enumerate(src.items) if isinstance(el, np.ndarray) and el.flags.writeable]
+        if thawed:
+            ctx.fail('observe-changes-element:' + case['helper'], 'read-only array elements %s are writeable after they went through' % thawed[:6], case)
+            continue
+        metas.append((case, len(got), src.i, [(j, elk(el)) for j, el in log], len(lines) - 1, k + (1 if close else 0)))
     mout_all = core.run_driver(lines)
     # each line yields one output line per demand
     pos = 0
@@ -258,7 +286,7 @@ def simplecache_cases(ctx):
         ctx.count('helper:simplecache')
         nwin = max(0, n - L + 1)
         want = [[src.items[i] for i in range(j, j + L)] for j in range(min(k, nwin))]
-        idx = lambda e: e.k if isinstance(e, Unprintable) else e[1]      # noqa
+        idx = elk
         if len(got) != len(want) or any(len(a) != len(b) or any(x is not y for x, y in zip(a, b)) for a, b in zip(got, want)):
             ctx.fail('simplecache-window-wrong', 'windows %s, expected %s' % ([[idx(e) for e in w] for w in got][:5], [[idx(e) for e in w] for w in want][:5]), case)
             continue
